@@ -1,0 +1,57 @@
+//go:build verif
+// +build verif
+
+package cache
+
+import "runtime"
+
+// This file is compiled only with the "verif" build tag. It adds accessors the
+// external verification harness needs and changes no existing behaviour.
+
+func verifCloseChan(ch chan struct{}) {
+	defer func() { _ = recover() }()
+	close(ch)
+}
+
+// VerifClose stops background goroutines of the cache (idempotent).
+func (c *ShardedMap) VerifClose() {
+	runtime.SetFinalizer(c, nil)
+	verifCloseChan(c.t.Closed)
+}
+
+// VerifCleanup runs one janitor cycle synchronously.
+func (c *ShardedMap) VerifCleanup() {
+	c.t.invokeCleanup()
+}
+
+// VerifClose stops background goroutines of the cache (idempotent).
+func (c *SyncMap) VerifClose() {
+	runtime.SetFinalizer(c, nil)
+	verifCloseChan(c.t.Closed)
+}
+
+// VerifCleanup runs one janitor cycle synchronously.
+func (c *SyncMap) VerifCleanup() {
+	c.t.invokeCleanup()
+}
+
+// VerifClose stops background goroutines of caches created by the frontend (idempotent).
+func (f *Failover) VerifClose() {
+	if f.Errors != nil {
+		f.Errors.VerifClose()
+	}
+
+	if f.config.Backend == nil {
+		if b, ok := f.backend.(*ShardedMap); ok {
+			b.VerifClose()
+		}
+	}
+}
+
+// VerifKeyLocks returns number of key locks currently held.
+func (f *Failover) VerifKeyLocks() int {
+	f.lock.Lock()
+	defer f.lock.Unlock()
+
+	return len(f.keyLocks)
+}
